@@ -294,7 +294,34 @@ ADDENDA5 = {   # round 11
     "C19": "the store the lookup bisects is changed only through the position-deciding branch (Richardson sub-steps included).",
     "C20": "only the constructor, the dt setter, reset(), integrate() and the orientation helper store the step size.",
 }
-for _add in (ADDENDA2, ADDENDA3, ADDENDA4, ADDENDA5):
+ADDENDA6 = {   # round 12
+    "C01": "the step routines store nothing into their arguments (the stage clock of the splitting step is the integrator's own object).",
+    "C02": "each integrator owns its stage array (no pooled storage).",
+    "C03": "buffers are trimmed to the recorded rows on every exit (re-judged).",
+    "C04": "the step size is rebound, never written in place (setter and orientation).",
+    "C05": "the controller accumulates nothing into the tolerance objects it was given.",
+    "C07": "no search-function wrapper is kept per event callable across systems (memoisation discipline incl. default-argument dicts).",
+    "C08": "event attributes are not memoised (re-judged).",
+    "C10": "the kick mask an integrator keeps is a copy of the user's array.",
+    "C12": "no in-place update of the step array handed to an integrator (re-judged).",
+    "C15": "nothing derived from a call's additional arguments is kept in a cache that is not keyed by them.",
+    "C18": "the callback list the facade appends to is its own.",
+}
+ADDENDA7 = {   # round 13
+    "C02": "no return of the Runge-Kutta driver or of the splitting step comes before the stage sweep (must-pass-through).",
+    "C04": "the pre-loop clamp is strict (a requested step equal to the span is kept).",
+    "C05": "the tolerance scale is stored on every path that reaches the tolerance.",
+    "C06": "a kept end slope is dropped by integrate() before its step loop (integrator and basis integrators).",
+    "C07": "every append to the recorded events is guarded by no-records / sentinel / distance to the event's own latest record (truth table).",
+    "C09": "event flags are read from the object the caller passed (loop element never rebound).",
+    "C10": "every return of the splitting step follows the reset of the increment and the stage loop.",
+    "C11": "the accepted residual is the residual at every return site of the front end.",
+    "C16": "the order an evaluation reports is never read back by the wrapper.",
+    "C18": "the initial state is only converted, never reshaped, before the system is built.",
+    "C19": "a time slice whose bounds lie outside the run returns rows [0 : counter + 1] on every path.",
+    "C20": "the callbacks are dropped only when the argument is None.",
+}
+for _add in (ADDENDA2, ADDENDA3, ADDENDA4, ADDENDA5, ADDENDA6, ADDENDA7):
     for _k, _v in _add.items():
         ADDENDA[_k] = (ADDENDA[_k] + " " + _v[0].upper() + _v[1:]) if _k in ADDENDA else "Also decided: " + _v
 for _k, _v in ADDENDA.items():
